@@ -78,6 +78,8 @@ package stun
 //@   assigns m.Type, m.Length, m.TransactionID, m.Attributes, mem(m.Attributes)
 //@   ensures result == nil ==> DecodedViews(m)
 //@   ensures result == nil ==> len(m.Raw) >= 20 && be32(m.Raw, 4) == 0x2112A442
+// allocation clause of C01: the only growing allocation is the attribute list, and it holds at most one record per 4 input bytes
+//@   ensures result == nil ==> 4 * len(m.Attributes) <= len(m.Raw) - 20
 //@   props C02 C12
 //@   ensures result == nil <==> accept(m.Raw, len(m.Raw))
 //@   ensures result == nil ==> DecodedContent(m)
@@ -86,6 +88,7 @@ package stun
 //@     invariant 0 <= offset && offset <= size && size == be16(m.Raw, 2) && len(m.Raw) >= 20 + size
 //@     invariant region(b) == region(m.Raw) && off(b) == off(m.Raw) + 20 + offset && len(b) == size - offset
 //@     invariant len(m.Attributes) >= 0 && start(m.Raw, len(m.Attributes)) == 20 + offset
+//@     invariant 4 * len(m.Attributes) <= offset
 //@     invariant region(m.Attributes) == loopold(region(m.Attributes)) || loopfresh(m.Attributes)
 //@     invariant tlv(m.Raw, 20, 20 + size) <==> tlv(m.Raw, 20 + offset, 20 + size)
 //@     invariant forall(k, 0, len(m.Attributes),
